@@ -389,3 +389,63 @@ class Result:
             self.pid, "FAIL" if bad else "ok", self.tier, self.seed, self.discharged, self.obligations,
             self.cov["evaluations"], time.time() - self.t0))
         return 1 if bad else 0
+
+
+# ---------------------------------------------------------------- lexer correspondence helpers
+from concurrent.futures import ThreadPoolExecutor
+
+
+def _run_out(cmd, inp=None):
+    p = sh(cmd, input=inp, timeout=7200)
+    if p.returncode != 0:
+        raise RuntimeError("%s failed: %s" % (cmd, p.stderr.decode(errors="replace")[-2000:]))
+    return p.stdout.decode(errors="replace").splitlines()
+
+
+def lex_exhaustive(alphabet, maxlen, mode, prefix=b"", proj="full", oracle="-"):
+    """Compare Go lexer and extracted model on every string prefix+w, |w| <= maxlen symbols.
+    Both sides enumerate in the same order and exchange one rolling hash per 4096 strings; a differing
+    block is re-run verbosely.  Returns dict(n, mismatches=[(hex, go, model)], fails=[(hex, why)])."""
+    alpha = ",".join(hexs(a) for a in alphabet)
+    k = len(alphabet)
+    firsts = list(range(k)) if maxlen >= 3 else [-1]
+    base = ["lex-exh", alpha, str(maxlen), mode, hexs(prefix)]
+
+    def one(first):
+        g = _run_out([HARNESS] + base + [str(first), proj, oracle])
+        m = _run_out([DRIVER] + base + [str(first), proj, "-"])
+        fails = [l for l in g if l.startswith("FAIL ")]
+        g = [l for l in g if not l.startswith("FAIL ")]
+        mism = []
+        if g != m:
+            for (i, a, b) in first_diffs(g, m, limit=3):
+                blk = a.split()[0] if " " in a else b.split()[0]
+                gv = _run_out([HARNESS] + base + [str(first), proj, "-", blk])
+                mv = _run_out([DRIVER] + base + [str(first), proj, "-", blk])
+                for (_, x, y) in first_diffs(gv, mv, limit=3):
+                    mism.append((x.split(" => ")[0], x, y))
+        return fails, mism
+
+    with ThreadPoolExecutor(max_workers=16) as ex:
+        results = list(ex.map(one, firsts))
+    fails, mism = [], []
+    for f, m in results:
+        fails += [(l.split()[1], " ".join(l.split()[2:])) for l in f]
+        mism += m
+    n = (k ** (maxlen + 1) - 1) // (k - 1) if firsts == [-1] else (k ** (maxlen + 1) - 1) // (k - 1) - 1 + k
+    return {"n": n, "mismatches": mism, "fails": fails}
+
+
+def lex_cases(inputs, mode, proj="full"):
+    """Go vs model on explicit inputs.  Returns (go_lines, model_lines)."""
+    inp = ("\n".join(hexs(s) for s in inputs) + "\n").encode()
+    with ThreadPoolExecutor(max_workers=2) as ex:
+        fg = ex.submit(_run_out, [HARNESS, "lex-cases", mode, proj], inp)
+        fm = ex.submit(_run_out, [DRIVER, "lex-cases", mode, proj], inp)
+        return fg.result(), fm.result()
+
+
+def lex_prop(oracle, inputs):
+    inp = ("\n".join(hexs(s) for s in inputs) + "\n").encode()
+    out = _run_out([HARNESS, "lex-prop", oracle], inp)
+    return [(l.split()[1], " ".join(l.split()[2:])) for l in out if l.startswith("FAIL ")]
